@@ -43,6 +43,24 @@ Example ex_C01_roundtrip :
             /\ read_pixels c = concat chunks /\ c_nnz c = 3 /\ c_sum c = 13.
 Proof. vm_compute. eexists. repeat split. Qed.
 
+(** end to end, no vacuity: EVERY strictly sorted, in-range (upper-triangular in symmetric mode) stream whose values
+    fit the output dtypes, cut into chunks in ANY way (empty chunks, no chunk at all), is accepted with all default
+    checks on - the max_size limit of the datasets can never be hit - and reads back exactly *)
+Theorem C01_create_valid_stream :
+  forall (V : Type) (dflt : key * V) (fits : key * V -> bool) (count : option (key * V -> Z))
+         (n : Z) (su : bool) (chunks : list (list (key * V))),
+  0 <= n ->
+  let stream := concat chunks in
+  StronglySorted klt (map fst stream) ->
+  Forall (fun r => 0 <= fst (fst r) < n /\ 0 <= snd (fst r) < n) stream ->
+  (su = true -> Forall (fun r => fst (fst r) <= snd (fst r)) stream) ->
+  Forall (fun r => fits r = true) stream ->
+  exists c, create dflt fits count n su true true true false chunks = inr c /\
+            c_rows c = stream /\ read_pixels c = stream /\ c_nnz c = zlen stream /\
+            c_sum c = chunk_total count stream /\ c_symm c = su.
+Proof. exact @create_valid_stream. Qed.
+Print Assumptions C01_create_valid_stream.
+
 (** create_matrix_roundtrip: the full-matrix view.  For every accepted stream (default triangularity check) and
     every value column f, the dense full matrix is the symmetric completion of the input (symmetric-upper) or the
     input itself (square); the sparse view agrees cell by cell; for a strictly sorted stream every key of the
